@@ -158,6 +158,10 @@ def shrink_mismatch(pid, mm, exe, model_exe):
     return {"program": small, "model": m, "impl": i, "diff": corr.diff(m, i, pins), "original": mm["program"]}
 
 
+# properties whose statement also covers slots held by / referring to other slots (NestModel.v)
+NEST_PIDS = ("C02", "C06", "C15")
+
+
 def finding_key(sm):
     """normal form of a shrunk failing input: the multiset of op mnemonics + the differing event kind"""
     ops = sorted(set(t for t in sm["program"].split() if t[0].isalpha() and t[0].islower() and len(t) > 2))
@@ -182,7 +186,7 @@ def run(pid, args):
         return v.finish()
     if args.replay:
         rp = json.load(open(args.replay))
-        progs = [rp["program"]] if "program" in rp else []
+        progs = [rp["program"]] if "program" in rp and rp.get("mode") != "nest" else []
         scale = 0
     else:
         progs = load_corpus(pid) + load_corpus("sig-shared")
@@ -236,6 +240,17 @@ def run(pid, args):
             v.violation("model-err", {"property": pid, "program": p, "model": m, "impl": i, "broken": "model and implementation both report a memory error"})
         else:
             log("MACHINERY: model reports %s but implementation is clean: %s" % (m, p))
+            v.finish()
+            return 2
+    if pid in NEST_PIDS:
+        from checks.nestpart import nest_part
+        if args.replay and json.load(open(args.replay)).get("mode") == "nest":
+            _a, machinery = nest_part(v, pid, tier, seed, exe, model_exe, replay=json.load(open(args.replay))["program"])
+        elif not args.replay:
+            _a, machinery = nest_part(v, pid, tier, seed, exe, model_exe, scale=0.6 * scale)
+        else:
+            machinery = False
+        if machinery:
             v.finish()
             return 2
     if not proof_ok and not v.violations:
